@@ -304,3 +304,30 @@ Section DataStage.
 End DataStage.
 
 Arguments rec : clear implicits.
+
+(* ------------------------------------------------------------------ the zero rule of the data class
+   _HourlyData._set_data: "Convert electricity data having 0 meter values to NaNs":
+       df.loc[df["observed"] == 0, "observed"] = np.nan
+   acts on the USAGE cell of the record only (ZeroUsageCell).  ZeroWholeRow is the variant that blanks the whole record
+   (`df = df.mask(df["observed"] == 0)`): the weather cells of a record then depend on its usage value. *)
+Inductive zero_policy := ZeroUsageCell | ZeroWholeRow.
+
+Section ZeroStage.
+  Context {Wc W O : Type}.
+  Variable is_zero : O -> bool.          (* observed == 0 *)
+  Variable w_nan : Wc.                   (* all weather cells NaN *)
+
+  Definition zero_rec (zp : zero_policy) (elec : bool) (r : rec Wc O) : rec Wc O :=
+    if elec && match q_obs r with Some o => is_zero o | None => false end
+    then {| q_utc := q_utc r; q_w := match zp with ZeroUsageCell => q_w r | ZeroWholeRow => w_nan end; q_obs := None |}
+    else r.
+
+  Variable w_empty : Wc -> bool.
+  Variable calendar : list Z -> list (list cal_stamp * option err).
+  Variable fill_w : list (option Wc) -> list W.
+  Variable fill_o : list (option O) -> list (option O).
+
+  (* the whole of _set_data: zero rule, de-duplication, contiguous index, gap filling *)
+  Definition public_stage (zp : zero_policy) (elec : bool) (p : dedup_policy) (recs : list (rec Wc O)) : frame W O :=
+    data_stage w_empty calendar fill_w fill_o p (map (zero_rec zp elec) recs).
+End ZeroStage.
